@@ -44,7 +44,7 @@ var seriousFindings, allFindings int
 func tooMany() bool { return seriousFindings >= 6 || allFindings >= 400 }
 
 var ends = []string{"close-frame", "abort", "abort-in-handler", "server-close-in-handler", "server-close-idle",
-	"abort-during-writes", "engine-stop", "engine-stop-in-handler"}
+	"abort-during-writes", "engine-stop", "engine-stop-in-handler", "engine-stop-during-open"}
 
 func genPlan(r *rand.Rand, cfg cellCfg, cid int, heavy bool) connPlan {
 	F := cfg.Frame
@@ -101,7 +101,11 @@ func genPlan(r *rand.Rand, cfg cellCfg, cid int, heavy bool) connPlan {
 	p.End = ends[r.Intn(len(ends))]
 	if cfg.Path == "own-loop" && strings.HasPrefix(p.End, "engine-stop") {
 		// the engine of this path is never started and does not know the connection
-		p.End = map[string]string{"engine-stop": "abort", "engine-stop-in-handler": "abort-in-handler"}[p.End]
+		p.End = map[string]string{"engine-stop": "abort", "engine-stop-in-handler": "abort-in-handler", "engine-stop-during-open": "abort"}[p.End]
+	}
+	if p.End == "engine-stop-during-open" {
+		// the connection is made when all others are done; Engine.Stop is called while its open handler still runs
+		p.OpenMs, p.Writers, p.Msgs, p.Pings, p.WritersFrom = 150, nil, nil, 0, "open"
 	}
 	return p
 }
@@ -241,12 +245,28 @@ func runConn(sv *server, cs *connState, cy *cellSync) (res connResult) {
 		}
 	}()
 	r := rand.New(rand.NewSource(p.Seed))
+	if p.End == "engine-stop-during-open" {
+		cy.others.Wait()
+	}
 	c, err := dialWS(sv.addr, p.Cid, r)
 	if err != nil {
 		res.infra = "dial/handshake: " + err.Error()
 		return
 	}
 	defer c.conn.Close()
+	if p.End == "engine-stop-during-open" {
+		// the 101 answer is here, the open handler is running
+		parked = true
+		cy.ready.Done()
+		<-cy.stopCalled
+		if wait(cs.closeCh, 8*time.Second) {
+			time.Sleep(60 * time.Millisecond)
+		}
+		res.mode = "direct"
+		res.probs = append(res.probs, checkLog(cs, 0)...)
+		res.log = logString(cs)
+		return
+	}
 	wc := &wireCheck{cid: p.Cid, mode: "%MODE%"}
 	addp := func(sig, f string, a ...interface{}) {
 		res.probs = append(res.probs, problem{Sig: sig, What: fmt.Sprintf(f, a...)})
@@ -509,6 +529,17 @@ func runCell(rep *hx.Report, r *rand.Rand, cfg cellCfg, nconn int) {
 	held := false
 	for k := 0; k < nconn; k++ {
 		pl := genPlan(r, cfg, k+1, k == 0)
+		if cfg.QMax == 0 && (k == 1 || k == 2) {
+			// two connections of every cell send their first frame(s) together with the handshake, or break off around the
+			// hand-over; the first of them with a frame that fails Parse
+			pl.Early = earlyKinds[r.Intn(len(earlyKinds))]
+			if k == 1 {
+				pl.Early = []string{"toolong", "rsv", "badop"}[r.Intn(3)]
+			}
+			pl.EarlyMore = r.Intn(3)
+			pl.MsgLimit = 2000
+			pl.Writers, pl.Msgs, pl.Pings, pl.End, pl.WritersFrom = nil, nil, 0, "early", "open"
+		}
 		if pl.End == "engine-stop-in-handler" {
 			if held { // one held handler per cell: see cellSync
 				pl.End = "engine-stop"
@@ -528,6 +559,11 @@ func runCell(rep *hx.Report, r *rand.Rand, cfg cellCfg, nconn int) {
 		}
 		go func(k int, cs *connState) {
 			defer wg.Done()
+			if cs.plan.Early != "" {
+				defer cy.others.Done()
+				results[k] = runEarly(sv, cs)
+				return
+			}
 			results[k] = runConn(sv, cs, cy)
 		}(k, cs)
 	}
@@ -551,6 +587,13 @@ func runCell(rep *hx.Report, r *rand.Rand, cfg cellCfg, nconn int) {
 		}
 		rep.Stat(fmt.Sprintf("cell.%s.%s.%s", cfg.Path, cfg.Epoll, asyncName))
 		rep.Stat("end." + x.plan.End)
+		if x.plan.Early != "" {
+			opened := "no-open"
+			if strings.HasPrefix(x.log, "O") {
+				opened = "opened"
+			}
+			rep.Stat("early." + x.plan.Early + "." + cfg.Path + "." + opened)
+		}
 		if x.mode != "" {
 			rep.Stat("write-mode." + x.mode)
 		}
@@ -613,7 +656,7 @@ func main() {
 		"per connection 1-10 server-side writer goroutines x 1-80 messages of 1 byte .. 8 frame payloads (the first connection of a cell: 6-10 writers x 40-80 multi-fragment messages), " +
 		"WriteMessage and WriteFrame, started from the open handler or from a message callback; 1-10 client messages (0..70000 bytes, 1-4 fragments, random TCP segmentation, " +
 		"slow handlers, echo replies), pings; endings: close frame, abrupt disconnect (idle / during a handler / during the writes), Close from another goroutine (idle / during a handler), " +
-		"Engine.Stop (idle / during a handler); non-trivial = more than one writer or more than one client message; distinct = distinct (cell, plan)"
+		"Engine.Stop (idle / during a handler / during the open handler); two connections of every cell send handshake request and first frame(s) in ONE write (a valid message, a frame that fails Parse: over a MessageLengthLimit of 2000, reserved bit, reserved opcode; an unmasked frame; a close frame; 0-2 valid messages behind) or break off around the hand-over (refused handshake: wrong version / no key; hang-up right after the request); non-trivial = more than one writer or more than one client message; distinct = distinct (cell, plan)"
 	if *only == "" || *only == "queue" {
 		queuePart(rep, *model, *seed, *qn, *full)
 	}
